@@ -176,9 +176,42 @@ func runC04(r *report.Run) {
 		})
 		r.Set("mapped_addresses_"+m.Name, perMapped)
 	}
+	// the translations are functions of their argument: the answer for a must not depend on which
+	// address was translated just before (a "last translation" cache keyed on part of the address would)
+	var hist int64
+	for mi := range mappers {
+		m := &mappers[mi]
+		par.For(512, func(_, chunk int) {
+			dir, f := "bus", m.BusToPak
+			if chunk >= 256 {
+				dir, f = "pak", m.PakToBus
+			}
+			base := uint32(chunk&255) << 16
+			var n int64
+			for o := uint32(0); o < 0x10000; o++ {
+				a := base | o
+				r0, e0, p0 := callMap(f, a)
+				if p0 {
+					continue
+				}
+				for k := uint(8); k < 24; k++ {
+					callMap(f, a^(1<<k))
+					r1, e1, p1 := callMap(f, a)
+					n += 2
+					if p1 || r1 != r0 || (e1 == nil) != (e0 == nil) {
+						r.Violation("unexplained:depends-on-previous-call:"+m.Name, fmt.Sprintf("%s %s->: translating $%06x gives ($%06x, %v), but right after translating $%06x it gives ($%06x, %v)", m.Name, dir, a, r0, e0, a^(1<<k), r1, e1), mapCase{m.Name, dir, a})
+						break
+					}
+				}
+			}
+			atomic.AddInt64(&hist, n)
+		})
+	}
+	evals += hist
+	r.Set("history_probe_calls", hist)
 	r.Set("evaluations", evals)
 	r.Set("distinct_nontrivial", mapped)
-	r.Set("rule", "all 2^24 bus addresses (clause i) and all 2^24 FX Pak Pro addresses (clause ii) for each of the 4 mappers; a case is non-trivial when the address is translated (not the unmapped-error path), and then both directions are really composed on the implementation")
+	r.Set("rule", "all 2^24 bus addresses (clause i) and all 2^24 FX Pak Pro addresses (clause ii) for each of the 4 mappers; a case is non-trivial when the address is translated (not the unmapped-error path), and then both directions are really composed on the implementation; history probe: for every address and every bit 8..23, the translation of a right after the translation of a with that bit flipped must equal the translation of a")
 	r.Set("exhaustive", true)
 	r.Sample(mapCase{"lorom", "bus", 0xFE0000})
 	r.Sample(mapCase{"lorom", "pak", 0xE70000})
